@@ -4,21 +4,22 @@
 From Coq Require Import List NArith ZArith Lia Bool ZifyBool ZifyNat ZifyN.
 From SqfsV Require Import Base.Bytes Gen.Constants C03.Common C03.ListN C03.MetaModel C03.MetaProofs C03.MetaRT
   C03.DirModel C03.TableModel C03.TableProofs.
-From SqfsV Require C14.SuperModel C14.SuperProofs C14.TraceModel.
+From SqfsV Require C14.SuperModel C14.SuperProofs C14.TraceModel C14.TraceProofs.
 From SqfsV Require Import C01.GenC01 C01.Res C01.InodeModel C01.InodeProofs C01.IdProofs.
-From SqfsV Require Import Img.TreeModel Img.SerDefs Img.SerProofs Img.Final Img.Domain Img.TreeRT.
+From SqfsV Require Import Img.TreeModel Img.InodeLemmas Img.SerDefs Img.SerProofs Img.Final Img.Domain Img.TreeRT Img.DirWF.
 From SqfsV Require Import Image.FinishModel Image.ReaderModel Image.ValidModel Image.ReadLemmas Image.TableRead Image.SerX
-  Image.FinishProofs Image.ExportInv Image.ValidLemmas.
+  Image.FinishProofs Image.ExportInv Image.ValidLemmas Image.DecodeMono Image.ScanLemmas.
 Import ListNotations.
 Local Open Scope N_scope.
 
 (* ---- domain ---- *)
 
 (* cmp->write_options writes nothing or one uncompressed metadata block (compressor.c sqfs_generic_write_options) *)
-Definition opts_okb (o : list N) : bool :=
+Definition opts_okb (comp : N) (o : list N) : bool :=
   match o with
-  | [] => true
-  | _ => (2 <=? lenN o) && (lenN o <? 32768) && (rd16 o =? lenN o - 2 + 32768)
+  | [] => negb (comp =? c_SQFS_COMP_LZ4)                                      (* lz4.c always writes options *)
+  | _ => (2 <=? lenN o) && (lenN o <? 32768) && (rd16 o =? lenN o - 2 + 32768) &&
+         negb (comp =? c_SQFS_COMP_LZMA)                                      (* lzma.c never does *)
   end.
 
 (* what the theorems need of the abstract xattr section: the header lies inside it (16 bytes at the offset) *)
@@ -34,7 +35,7 @@ Definition image_domain (cfg : wcfg) (inp : winput) : bool :=
   representable (c_block_size cfg) (in_tree inp) &&
   (c_SQFS_COMP_MIN <=? c_comp_id cfg) && (c_comp_id cfg <=? c_SQFS_COMP_MAX) &&
   forallb frag_okb (in_frags inp) && (nlen (in_frags inp) <? 4294967296) &&
-  opts_okb (in_opts inp) && xattr_okb (in_xattr inp).
+  opts_okb (c_comp_id cfg) (in_opts inp) && xattr_okb (in_xattr inp).
 
 Definition image_fits (w : wimage) : bool :=
   trace_fits (w_img w) && (s_bytes_used (w_super w) <? 18446744073709551616).
@@ -101,7 +102,7 @@ Section IP.
   Lemma dom_facts :
     representable bs t = true /\ c_SQFS_COMP_MIN <= c_comp_id cfg <= c_SQFS_COMP_MAX /\
     Forall (fun f => fst f < 2 ^ 64 /\ snd f < 2 ^ 32) (in_frags inp) /\ nlen (in_frags inp) < 2 ^ 32 /\
-    opts_okb (in_opts inp) = true /\ xattr_okb (in_xattr inp) = true.
+    opts_okb (c_comp_id cfg) (in_opts inp) = true /\ xattr_okb (in_xattr inp) = true.
   Proof.
     unfold image_domain in Hdom. rewrite !andb_true_iff in Hdom.
     destruct Hdom as [[[[[[A B1] B2] C] D] E] F].
@@ -346,7 +347,7 @@ Section IP.
     SuperModel.s_vmin sf = c_SQFS_VERSION_MINOR /\ SuperModel.s_root_ref sf = si_root img.
   Proof.
     destruct shape as (dwr & f1 & f2 & _ & _ & _ & _ & _ & _ & _ & _ & _ & _ & _ & _ &
-                       M1 & M2 & M3 & M4 & M5 & M6 & M7 & M8 & M9 & M10).
+                       M1 & M2 & M3 & M4 & M5 & M6 & M7 & M8 & M9 & M10 & _).
     destruct s0_facts as (E0 & _). destruct dom_facts as (R & C & _).
     destruct (repr_facts bs t R) as (_ & _ & T2 & _). destruct ids_facts as (_ & _ & IL).
     fold sf s0 img t in M1, M2, M3, M4, M5, M6, M7, M8, M9, M10.
@@ -727,8 +728,15 @@ Section IP.
 
   Lemma v_size_ok : v_size devblk (image_bytes w) sf = true.
   Proof.
-    destruct layout as [_ _ _ _ _ _ _ [D P]]. unfold v_size. rewrite image_len, P, Hdev.
+    destruct layout as [_ _ _ _ _ _ U [D P]]. unfold v_size. rewrite image_len, P, Hdev.
     destruct (pad_len_ok (s_bytes_used sf) (c_devblk cfg) ltac:(lia)) as [A B].
+    assert (Z : forallb (N.eqb 0) (dropN (s_bytes_used sf) (image_bytes w)) = true).
+    { rewrite split_id. unfold tail_x.
+      replace (pre_id ++ w_idb w ++ w_xattrb w ++ zeros (w_pad w)) with ((pre_id ++ w_idb w ++ w_xattrb w) ++ zeros (w_pad w))
+        by (rewrite <- !app_assoc; reflexivity).
+      rewrite dropN_app_exact by (rewrite !lenN_app, len_pre_id; unfold o_xattr in U; lia).
+      unfold zeros. apply forallb_forall. intros x Hx. apply repeat_spec in Hx. subst x. reflexivity. }
+    rewrite Z.
     rewrite !andb_true_iff, negb_true_iff, N.eqb_neq, N.leb_le, N.eqb_eq, N.ltb_lt. repeat split; try assumption; lia.
   Qed.
 
@@ -790,34 +798,44 @@ Section IP.
   Lemma v_opts_ok : v_opts uncompress (image_bytes w) sf = true.
   Proof.
     destruct dom_facts as (_ & _ & _ & _ & Oo & _). destruct layout as [Li _ _ _ _ _ _ _].
-    unfold v_opts. rewrite flags_eq. unfold flags_of.
+    destruct fixed_fields as (_ & _ & _ & _ & M5 & _).
+    unfold v_opts. rewrite flags_eq, M5. unfold flags_of.
     destruct (final_flags_bits (negb (is_nil (in_opts inp))) (is_nil (in_frags inp))
                 (existsb frag_compressed (in_frags inp)) (is_some (w_export w))
                 (if c_no_xattr cfg then None else Some (is_some (in_xattr inp)))) as (B & _).
-    change FLAG_COMP_OPTS with c_SQFS_FLAG_COMPRESSOR_OPTIONS.
-    assert (OF : in_opts inp = [] \/
-                 (is_nil (in_opts inp) = false /\ 2 <= lenN opts /\ lenN opts < 32768 /\ rd16 opts = lenN opts - 2 + 32768)).
-    { unfold opts. destruct (in_opts inp) as [|o0 orest]; [left; reflexivity|right].
-      unfold opts_okb in Oo. rewrite !andb_true_iff, N.leb_le, N.ltb_lt, N.eqb_eq in Oo. cbn [is_nil]. tauto. }
-    destruct OF as [EO|(EO & O1 & O2 & O3)].
-    - rewrite EO in B |- *. cbn [is_nil negb] in B |- *. apply negb_false_iff in B. rewrite B. reflexivity.
-    - rewrite EO in B |- *. cbn [negb] in B |- *. apply negb_true_iff in B. rewrite B.
-      rewrite bytes_eq. unfold read_block.
-      replace SUPER_SIZE with (lenN (SuperModel.encode sf)) by (rewrite enc_len; reflexivity).
-      rewrite dropN_app_exact by reflexivity.
-      set (rest := data ++ itbl ++ dtbl ++ w_fragb w ++ w_exportb w ++ w_idb w ++ w_xattrb w ++ zeros (w_pad w)).
-      assert (L2 : lenN (opts ++ rest) <? 2 = false) by (apply N.ltb_ge; rewrite lenN_app; lia).
-      rewrite L2. unfold rd16 in O3 |- *. rewrite (rd_app_ge 2 opts rest) by (unfold lenN in O1; lia). rewrite O3.
-      assert (M : (lenN opts - 2 + 32768) mod META_FLAG = lenN opts - 2).
-      { rewrite FLAG_val. replace (lenN opts - 2 + 32768) with (lenN opts - 2 + 1 * 32768) by lia.
-        rewrite N.mod_add by discriminate. apply N.mod_small. lia. }
-      rewrite M. rewrite (dropN_app_le 2 opts rest) by lia.
-      rewrite takeN_app_le by (rewrite lenN_dropN; lia).
-      assert (T : lenN (takeN (lenN opts - 2) (dropN 2 opts)) <? lenN opts - 2 = false).
-      { apply N.ltb_ge. rewrite lenN_takeN, lenN_dropN. lia. }
-      rewrite T.
-      assert (F : META_FLAG <=? lenN opts - 2 + 32768 = true) by (apply N.leb_le; rewrite FLAG_val; lia).
-      rewrite F. cbn [negb andb]. apply N.leb_le. rewrite enc_len. fold opts in Li. unfold SBN in *. lia.
+    change FLAG_COMP_OPTS with c_SQFS_FLAG_COMPRESSOR_OPTIONS. cbv zeta. rewrite B.
+    assert (OF : (in_opts inp = [] /\ (c_comp_id cfg =? 5) = false) \/
+                 (is_nil (in_opts inp) = false /\ (c_comp_id cfg =? 2) = false /\
+                  2 <= lenN opts /\ lenN opts < 32768 /\ rd16 opts = lenN opts - 2 + 32768)).
+    { unfold opts. destruct (in_opts inp) as [|o0 orest]; [left|right].
+      - unfold opts_okb in Oo. apply negb_true_iff in Oo. split; [reflexivity|exact Oo].
+      - unfold opts_okb in Oo. rewrite !andb_true_iff, N.leb_le, N.ltb_lt, N.eqb_eq, negb_true_iff in Oo.
+        cbn [is_nil]. change c_SQFS_COMP_LZMA with 2 in Oo. tauto. }
+    destruct OF as [(EO & C5)|(EO & C2 & O1 & O2 & O3)].
+    - rewrite EO, C5. cbn [is_nil negb]. destruct (c_comp_id cfg =? 2); reflexivity.
+    - rewrite EO, C2. cbn [negb].
+      assert (RB : match read_block uncompress (image_bytes w) SUPER_SIZE with
+                   | Some (c, size, comp) => negb comp && (SUPER_SIZE + 2 + size <=? s_inode_start sf)
+                   | None => false
+                   end = true).
+      {
+        rewrite bytes_eq. unfold read_block.
+        replace SUPER_SIZE with (lenN (SuperModel.encode sf)) by (rewrite enc_len; reflexivity).
+        rewrite dropN_app_exact by reflexivity.
+        set (rest := data ++ itbl ++ dtbl ++ w_fragb w ++ w_exportb w ++ w_idb w ++ w_xattrb w ++ zeros (w_pad w)).
+        assert (L2 : lenN (opts ++ rest) <? 2 = false) by (apply N.ltb_ge; rewrite lenN_app; lia).
+        rewrite L2. unfold rd16 in O3 |- *. rewrite (rd_app_ge 2 opts rest) by (unfold lenN in O1; lia). rewrite O3.
+        assert (M : (lenN opts - 2 + 32768) mod META_FLAG = lenN opts - 2).
+        { rewrite FLAG_val. replace (lenN opts - 2 + 32768) with (lenN opts - 2 + 1 * 32768) by lia.
+          rewrite N.mod_add by discriminate. apply N.mod_small. lia. }
+        rewrite M. rewrite (dropN_app_le 2 opts rest) by lia.
+        rewrite takeN_app_le by (rewrite lenN_dropN; lia).
+        assert (T : lenN (takeN (lenN opts - 2) (dropN 2 opts)) <? lenN opts - 2 = false).
+        { apply N.ltb_ge. rewrite lenN_takeN, lenN_dropN. lia. }
+        rewrite T.
+        assert (F : META_FLAG <=? lenN opts - 2 + 32768 = true) by (apply N.leb_le; rewrite FLAG_val; lia).
+        rewrite F. cbn [negb andb]. apply N.leb_le. rewrite enc_len. fold opts in Li. unfold SBN in *. lia. }
+      rewrite RB. destruct (c_comp_id cfg =? 5); reflexivity.
   Qed.
 
   Lemma v_meta_ok : v_meta uncompress (image_bytes w) sf = true.
@@ -980,5 +998,323 @@ Section IP.
   Proof.
     intro HX. split; [exact super_roundtrip_l|]. split; [exact (valid_layout_l HX)|].
     unfold valid_image, valid_super. rewrite super_roundtrip_l, (valid_layout_l HX). reflexivity.
+  Qed.
+
+  (* ---- the output calls: the trace the model emits produces the image and has the shape C14's crash-safety
+     theorems ask for (provisional super block, body behind it, commit, padding) ---- *)
+  Lemma pwrite_end (f d : list N) : TraceModel.pwrite (length f) d f = f ++ d.
+  Proof.
+    unfold TraceModel.pwrite. destruct d as [|x d]; [rewrite app_nil_r; reflexivity|].
+    unfold TraceModel.pad_to. rewrite Nat.sub_diag. cbn [TraceModel.zeros repeat]. rewrite app_nil_r, firstn_all.
+    rewrite skipn_all2 by lia. rewrite app_nil_r. reflexivity.
+  Qed.
+
+  Lemma apply_ev_write f off d : off = lenN f -> TraceModel.apply_from f (ev_write off d) = f ++ d.
+  Proof.
+    intros ->. unfold ev_write. destruct d as [|x d]; [rewrite app_nil_r; reflexivity|].
+    unfold TraceModel.apply_from. cbn [fold_left TraceModel.apply_ev]. unfold lenN. rewrite Nat2N.id. apply pwrite_end.
+  Qed.
+
+  Lemma ev_write_body off d : SBN <= off -> forallb TraceModel.body_ok (ev_write off d) = true.
+  Proof.
+    intro H. unfold ev_write. destruct d; [reflexivity|]. cbn [forallb TraceModel.body_ok TraceModel.keeps].
+    rewrite andb_true_r. apply N.leb_le. exact H.
+  Qed.
+
+  Definition body_events : list TraceModel.event :=
+    ev_write SBN opts ++ ev_write (SBN + lenN opts) data ++ ev_write (s_inode_start sf) itbl ++
+    ev_write (s_dir_start sf) dtbl ++ ev_write (o_frag w) (w_fragb w) ++ ev_write (o_export w) (w_exportb w) ++
+    ev_write (o_id w) (w_idb w) ++ ev_write (o_xattr w) (w_xattrb w).
+
+  Lemma trace_eq :
+    w_trace w = TraceModel.PWrite 0 (SuperModel.encode s0) :: body_events ++
+                TraceModel.PWrite 0 (SuperModel.encode sf) :: ev_write (s_bytes_used sf) (zeros (w_pad w)).
+  Proof.
+    destruct shape as (dwr & f1 & f2 & _ & _ & _ & _ & _ & _ & _ & _ & _ & _ & _ & _ & _ & _ & _ & _ & _ & _ & _ & _ & _ & _ & TR).
+    rewrite TR. unfold body_events. fold sf s0 img opts data itbl dtbl. cbn [app]. rewrite <- !app_assoc. reflexivity.
+  Qed.
+
+  Lemma enc0_len : lenN (SuperModel.encode s0) = SBN.
+  Proof. unfold lenN. rewrite SuperProofs.encode_length. unfold SuperModel.SB, SBN. apply N2Nat.id. Qed.
+
+  Lemma apply_body :
+    TraceModel.apply_from (SuperModel.encode s0) body_events
+    = SuperModel.encode s0 ++ opts ++ data ++ itbl ++ dtbl ++ w_fragb w ++ w_exportb w ++ w_idb w ++ w_xattrb w.
+  Proof.
+    destruct layout as [Li Ld _ _ _ _ _ _]. fold itbl in Ld.
+    unfold body_events. rewrite !TraceProofs.apply_from_app.
+    rewrite (apply_ev_write _ SBN opts) by (rewrite enc0_len; reflexivity).
+    rewrite (apply_ev_write _ _ data) by (rewrite lenN_app, enc0_len; reflexivity).
+    rewrite (apply_ev_write _ _ itbl) by (rewrite !lenN_app, enc0_len; lia).
+    rewrite (apply_ev_write _ _ dtbl) by (rewrite !lenN_app, enc0_len; lia).
+    rewrite (apply_ev_write _ _ (w_fragb w)) by (unfold o_frag; fold sf img dtbl; rewrite !lenN_app, enc0_len; lia).
+    rewrite (apply_ev_write _ _ (w_exportb w)) by (unfold o_export, o_frag; fold sf img dtbl; rewrite !lenN_app, enc0_len; lia).
+    rewrite (apply_ev_write _ _ (w_idb w)) by (unfold o_id, o_export, o_frag; fold sf img dtbl; rewrite !lenN_app, enc0_len; lia).
+    rewrite (apply_ev_write _ _ (w_xattrb w))
+      by (unfold o_xattr, o_id, o_export, o_frag; fold sf img dtbl; rewrite !lenN_app, enc0_len; lia).
+    rewrite <- !app_assoc. reflexivity.
+  Qed.
+
+  (* the calls, applied to the empty file, leave exactly image_bytes *)
+  Theorem trace_applies_l : TraceModel.apply (w_trace w) = image_bytes w.
+  Proof.
+    destruct layout as [_ _ _ _ _ _ U _].
+    rewrite trace_eq. unfold TraceModel.apply.
+    change (TraceModel.apply_from [] (TraceModel.PWrite 0 (SuperModel.encode s0) :: ?x))
+      with (TraceModel.apply_from (TraceModel.apply_ev [] (TraceModel.PWrite 0 (SuperModel.encode s0))) x).
+    rewrite TraceProofs.first_event, TraceProofs.apply_from_app, apply_body.
+    set (body := opts ++ data ++ itbl ++ dtbl ++ w_fragb w ++ w_exportb w ++ w_idb w ++ w_xattrb w).
+    change (TraceModel.apply_from (SuperModel.encode s0 ++ body)
+              (TraceModel.PWrite 0 (SuperModel.encode sf) :: ?x))
+      with (TraceModel.apply_from (TraceModel.apply_ev (SuperModel.encode s0 ++ body)
+                                     (TraceModel.PWrite 0 (SuperModel.encode sf))) x).
+    assert (C : TraceModel.apply_ev (SuperModel.encode s0 ++ body) (TraceModel.PWrite 0 (SuperModel.encode sf))
+                = SuperModel.encode sf ++ body).
+    { cbn [TraceModel.apply_ev N.to_nat]. unfold TraceModel.pwrite.
+      destruct (SuperModel.encode sf) as [|e0 er] eqn:E.
+      { exfalso. pose proof (SuperProofs.encode_length sf) as L. rewrite E in L. unfold SuperModel.SB in L.
+        change sizeof_sqfs_super_t with 96 in L. cbn in L. lia. }
+      rewrite <- E. cbn [firstn app plus]. rewrite SuperProofs.encode_length.
+      rewrite (SuperProofs.skipn_exact (SuperModel.encode s0) body SuperModel.SB (SuperProofs.encode_length s0)).
+      reflexivity. }
+    rewrite C.
+    rewrite (apply_ev_write _ _ (zeros (w_pad w))).
+    - rewrite bytes_eq. unfold body. rewrite <- !app_assoc. reflexivity.
+    - rewrite lenN_app, enc_len. unfold body. rewrite !lenN_app.
+      unfold o_xattr, o_id, o_export, o_frag in U. fold sf img dtbl in U.
+      destruct layout as [Li Ld _ _ _ _ _ _]. fold itbl in Ld. lia.
+  Qed.
+
+  Lemma refs_in_file_ok : TraceModel.refs_in_file sf = true.
+  Proof.
+    pose proof order_facts as O. destruct layout as [_ _ Fr Ex _ _ U _].
+    assert (X : o_xattr w <= s_bytes_used sf) by lia.
+    assert (NT : forall bu, TraceModel.ref_ok bu NO_TABLE = true) by (intro; unfold TraceModel.ref_ok; rewrite N.eqb_refl; reflexivity).
+    assert (IN : forall x, SBN <= x -> x < s_bytes_used sf -> TraceModel.ref_ok (s_bytes_used sf) x = true).
+    { intros x A B. unfold TraceModel.ref_ok. apply orb_true_iff. right. rewrite andb_true_iff, N.leb_le, N.ltb_lt.
+      unfold SBN in A. split; assumption. }
+    unfold TraceModel.refs_in_file. fold sf.
+    rewrite (IN (s_id_start sf)) by lia. rewrite (IN (s_inode_start sf)) by (pose proof itbl_nonempty; destruct layout as [_ Ld _ _ _ _ _ _]; fold itbl in Ld; lia).
+    rewrite (IN (s_dir_start sf)) by lia. cbn [andb].
+    assert (Xa : TraceModel.ref_ok (s_bytes_used sf) (s_xattr_start sf) = true).
+    { destruct xattr_facts as [(_ & B & _)|(A & B)]; [rewrite B; apply NT|apply IN; lia]. }
+    assert (Fa : TraceModel.ref_ok (s_bytes_used sf) (s_frag_start sf) = true).
+    { destruct Fr as [(_ & _ & S & _)|(Z & _ & _)]; [rewrite S; apply NT|].
+      destruct frag_span as [_ F]. destruct (F Z) as [F1 F2]. apply IN; lia. }
+    assert (Ea : TraceModel.ref_ok (s_bytes_used sf) (s_export_start sf) = true).
+    { destruct Ex as [(_ & _ & S)|(l & dwr & Z & _)]; [rewrite S; apply NT|].
+      destruct export_span as [_ E]. destruct (E l Z) as [E1 E2]. apply IN; lia. }
+    rewrite Xa, Fa, Ea. reflexivity.
+  Qed.
+
+  (* C14's trace shape: everything C14 proves about crash points applies to this writer *)
+  Theorem trace_ok_l : TraceModel.trace_ok (w_trace w).
+  Proof.
+    pose proof order_facts as O. destruct layout as [Li Ld _ _ _ _ U _]. fold itbl in Ld.
+    destruct shape as (dwr & f1 & f2 & I & _).
+    exists (c_block_size cfg), (c_mtime cfg), (c_comp_id cfg), s0, body_events, (SuperModel.encode sf),
+           (ev_write (s_bytes_used sf) (zeros (w_pad w))).
+    assert (D : SuperModel.decode (SuperModel.encode sf) = sf).
+    { rewrite <- (app_nil_r (SuperModel.encode sf)). apply SuperProofs.super_rt_l. exact super_range. }
+    split; [exact I|]. split; [exact trace_eq|]. split.
+    { unfold body_events. rewrite !forallb_app.
+      rewrite !ev_write_body; try reflexivity; unfold SBN in *; lia. }
+    split; [apply SuperProofs.encode_length|]. rewrite D. split.
+    - split; [unfold SBN in *; lia|].
+      rewrite <- TraceProofs.apply_length_l.
+      assert (A : TraceModel.apply (TraceModel.PWrite 0 (SuperModel.encode s0) :: body_events ++
+                                      [TraceModel.PWrite 0 (SuperModel.encode sf)])
+                  = SuperModel.encode sf ++ opts ++ data ++ itbl ++ dtbl ++ w_fragb w ++ w_exportb w ++ w_idb w ++ w_xattrb w).
+      { unfold TraceModel.apply.
+        change (TraceModel.apply_from [] (TraceModel.PWrite 0 (SuperModel.encode s0) :: ?x))
+          with (TraceModel.apply_from (TraceModel.apply_ev [] (TraceModel.PWrite 0 (SuperModel.encode s0))) x).
+        rewrite TraceProofs.first_event, TraceProofs.apply_from_app, apply_body.
+        unfold TraceModel.apply_from. cbn [fold_left TraceModel.apply_ev N.to_nat]. unfold TraceModel.pwrite.
+        destruct (SuperModel.encode sf) as [|e0 er] eqn:E.
+        { exfalso. pose proof (SuperProofs.encode_length sf) as L. rewrite E in L. unfold SuperModel.SB in L.
+          change sizeof_sqfs_super_t with 96 in L. cbn in L. lia. }
+        rewrite <- E. cbn [firstn app plus]. rewrite SuperProofs.encode_length.
+        rewrite (SuperProofs.skipn_exact (SuperModel.encode s0) _ SuperModel.SB (SuperProofs.encode_length s0)).
+        reflexivity. }
+      rewrite A. fold (lenN (SuperModel.encode sf ++ opts ++ data ++ itbl ++ dtbl ++ w_fragb w ++ w_exportb w ++ w_idb w ++ w_xattrb w)).
+      rewrite !lenN_app, enc_len. unfold o_xattr, o_id, o_export, o_frag in U. fold sf img dtbl in U. lia.
+    - split; [exact refs_in_file_ok|].
+      unfold ev_write. destruct (zeros (w_pad w)); [reflexivity|].
+      cbn [forallb TraceModel.keeps]. rewrite N.leb_refl. reflexivity.
+  Qed.
+
+  (* ---- the inode / directory clauses of the executable validator ---- *)
+  Lemma Forall2_nth_error {A B} (P : A -> B -> Prop) : forall (a : list A) (b : list B),
+    length a = length b -> (forall j x y, nth_error a j = Some x -> nth_error b j = Some y -> P x y) -> Forall2 P a b.
+  Proof.
+    induction a as [|x a IH]; intros b L H; destruct b as [|y b]; try discriminate; constructor.
+    - apply (H 0%nat); reflexivity.
+    - apply IH; [simpl in L; lia|]. intros j x' y' Hx Hy. apply (H (S j)); assumption.
+  Qed.
+
+  Lemma counts_from_spec : forall l k, (forall j, (j < length l)%nat -> nth j l 0 = k + N.of_nat j) -> counts_from l k = true.
+  Proof.
+    induction l as [|x l IH]; intros k H; [reflexivity|].
+    cbn [counts_from]. pose proof (H 0%nat ltac:(simpl; lia)) as H0. cbn [nth] in H0. change (N.of_nat 0) with 0 in H0.
+    rewrite N.add_0_r in H0. rewrite H0, N.eqb_refl. cbn [andb].
+    apply IH. intros j Hj. specialize (H (S j) ltac:(simpl; lia)). cbn [nth] in H. rewrite H. lia.
+  Qed.
+
+  Theorem valid_tree_l : valid_tree uncompress (image_bytes w) sf = true.
+  Proof.
+    destruct dom_facts as (R & _). destruct fit_facts as (Ft & _).
+    assert (L65536 : limit <= 65536) by lia.
+    destruct (serialize_final compress uncompress compress_ok limit t img (repr_children_before bs t R) ser_ok)
+      as (a & im & dm & FIN).
+    destruct (repr_facts bs t R) as (Hbs & T1 & T2 & (nroot & rpar & rch & Groot & Proot) & _).
+    pose proof FIN as ([(A1 & _ & C1 & _) _] & Cu1 & TI & [(A2 & _ & C2 & _) _] & _ & TD & _ & _ & _ & _ & _ & _ & CC &
+                       Lr & _ & Li & Lb & _ & RT & _).
+    fold img in TI, TD, RT.
+    set (rawsI := a_rawsI a) in *. set (bl := a_bl a) in *. set (ins := si_inodes img) in *.
+    assert (NR : forall j, (j < length t)%nat ->
+              exists n tn i b r, ReadProofs.node_run compress limit bs t img a j n tn i b r).
+    { intros j Hj. exact (ReadProofs.node_run_of compress uncompress compress_ok limit L65536 bs t img R Ft a im dm j FIN Hj). }
+    (* the encodings *)
+    assert (F2 : Forall2 (fun b i => encode i = Ok b /\ inode_wfb bs i = true) bl ins).
+    { apply Forall2_nth_error; [lia|]. intros j b i Hb Hi.
+      assert (Hj : (j < length t)%nat) by (rewrite <- Lb; apply nth_error_Some; congruence).
+      destruct (NR j Hj) as (n & tn & i' & b' & r & N0). destruct N0.
+      fold bl in nr_b. fold ins in nr_i. rewrite Hb in nr_b. injection nr_b as <-. rewrite Hi in nr_i. injection nr_i as <-.
+      split; assumption. }
+    assert (Fb : Forall (fun b => 0 < lenN b) bl).
+    { apply Forall_forall. intros b Hb. destruct (In_nth_error _ _ Hb) as [j Hj].
+      assert (Hjl : (j < length ins)%nat) by (rewrite Li, <- Lb; apply nth_error_Some; congruence).
+      destruct (nth_error ins j) as [i|] eqn:Ei; [|apply nth_error_None in Ei; lia].
+      assert (Q : encode i = Ok b).
+      { clear - F2 Hj Ei. revert j Hj Ei. induction F2 as [|b0 i0 bl0 is0 [E0 _] _ IH]; intros j Hj Ei; [destruct j; discriminate|].
+        destruct j; cbn [nth_error] in *; [injection Hj as <-; injection Ei as <-; exact E0|eapply IH; eassumption]. }
+      pose proof (ReadProofs.encode_nonempty _ _ Q). lia. }
+    (* the inode table as the validator sees it *)
+    assert (AR : area uncompress (image_bytes w) (s_inode_start sf) (s_dir_start sf) = Some (parsed compress rawsI)).
+    { apply (area_written compress uncompress compress_ok (image_bytes w) rawsI pre_inode
+               (dtbl ++ w_fragb w ++ w_exportb w ++ w_idb w ++ tail_x)); [exact C1| | |].
+      - rewrite split_inode. unfold itbl. rewrite TI, A1. reflexivity.
+      - symmetry. exact len_pre_inode.
+      - rewrite len_pre_inode. destruct layout as [_ Ld _ _ _ _ _ _]. rewrite Ld. unfold itbl.
+        fold img. rewrite TI, A1. reflexivity. }
+    destruct fixed_fields as (_ & M2 & _ & M4 & _ & _ & M7 & _ & _ & M10).
+    set (bt := block_index (parsed compress rawsI) 0 0).
+    set (sl := scan_result 0 bl ins).
+    assert (IO : inodes_of uncompress (image_bytes w) sf = Some (bt, sl)).
+    { unfold inodes_of. rewrite AR, M2, M4, (concat_parsed compress). fold rawsI in CC. rewrite CC.
+      replace (N.to_nat (nlen t)) with (length bl) by (unfold nlen; lia).
+      rewrite (scan_spec bs Hbs bl ins 0 F2). reflexivity. }
+    (* a recorded reference resolves to the inode written for that number *)
+    assert (RES : forall j n tn i b r, ReadProofs.node_run compress limit bs t img a j n tn i b r ->
+                  resolve bt sl r = Some (clear_slack i)).
+    { intros j n tn i b r N0. destruct N0.
+      destruct nr_pos as (k & Hk & P1 & P2 & P3). unfold split_ref in P1, P2, P3. cbn [fst snd] in P1, P2, P3.
+      fold rawsI bl in Hk, P1, P2, P3.
+      assert (HL : lenN (concat (firstn j bl)) < lenN (concat rawsI)).
+      { rewrite CC. destruct (nth_error_split _ _ nr_b) as (l1 & l2 & Hbl & Hl1). fold bl in Hbl.
+        rewrite Hbl. rewrite <- Hl1, firstn_app, Nat.sub_diag, firstn_all. cbn [firstn]. rewrite app_nil_r.
+        rewrite concat_app. cbn [concat]. rewrite !lenN_app. pose proof (ReadProofs.encode_nonempty _ _ nr_enc). lia. }
+      assert (Hlt : (k < length rawsI)%nat).
+      { destruct (Nat.eq_dec k (length rawsI)) as [->|Hne]; [|lia].
+        rewrite app_nth2, Nat.sub_diag in P3 by lia. cbn [nth] in P3. rewrite lenN_nil in P3.
+        rewrite firstn_all in P2. lia. }
+      rewrite app_nth1 in P3 by lia.
+      unfold resolve, bt.
+      rewrite (ref_offset_spec compress uncompress compress_ok rawsI 0 0 k r C1 Hlt ltac:(lia) P3).
+      replace (0 + lenN (concat (firstn k rawsI)) + r mod 65536) with (0 + lenN (concat (firstn j bl))) by lia.
+      unfold sl. apply inode_at_offset_spec; [exact Fb|exact nr_i|].
+      rewrite Lb. apply nth_error_Some. congruence. }
+    unfold valid_tree. rewrite IO, tables_ok.
+    apply andb_true_iff. split; [apply andb_true_iff; split|].
+    - (* v_inodes *)
+      unfold v_inodes. apply andb_true_iff. split.
+      + unfold numbers_ok. apply andb_true_iff. split.
+        * apply N.eqb_eq. rewrite lenN_map. unfold sl, lenN. rewrite scan_result_length by lia.
+          rewrite M2. unfold nlen. lia.
+        * apply orb_true_iff. left. apply counts_from_spec. intros j Hj.
+          rewrite map_length in Hj. unfold sl in Hj. rewrite scan_result_length in Hj by lia.
+          unfold sl. rewrite (scan_result_map (fun i => ib_ino (i_base i))) by lia.
+          assert (Hjt : (j < length t)%nat) by lia.
+          destruct (NR j Hjt) as (n & tn & i & b & r & N0). destruct N0.
+          fold ins in nr_i.
+          assert (Mn : nth_error (map (fun i0 => ib_ino (i_base (clear_slack i0))) ins) j
+                       = Some (ib_ino (i_base (clear_slack i)))) by (rewrite nth_error_map, nr_i; reflexivity).
+          rewrite (nth_error_nth _ _ 0 Mn), clear_slack_base.
+          destruct nr_ser as (tbl & tbl' & more & S1 & _). destruct (serialize_base _ _ _ _ _ S1) as [_ B2].
+          rewrite B2, nr_node. cbn [tn_ino]. lia.
+      + apply forallb_forall. intros p Hp. destruct (In_nth_error _ _ Hp) as [j Hj].
+        assert (Hjl : (j < length sl)%nat) by (apply nth_error_Some; congruence).
+        unfold sl in Hjl. rewrite scan_result_length in Hjl by lia.
+        assert (Hjt : (j < length t)%nat) by lia.
+        destruct (NR j Hjt) as (n & tn & i & b & r & N0). destruct N0.
+        assert (Es : snd p = clear_slack i).
+        { assert (M : nth_error (map (fun q => snd q) sl) j = Some (snd p)) by (rewrite nth_error_map, Hj; reflexivity).
+          unfold sl in M. rewrite (scan_result_map (fun i0 => i0)) in M by lia.
+          rewrite nth_error_map in M. fold ins in nr_i. rewrite nr_i in M. cbn in M. congruence. }
+        rewrite Es, clear_slack_base, M7.
+        destruct nr_ser as (tbl & tbl' & more & S1 & _ & S3). fold img in S3.
+        unfold serialize in S1.
+        destruct (id_to_index limit tbl (tn_uid tn)) as [[t1 ui]| | |] eqn:E1; try discriminate. cbn [bind] in S1.
+        destruct (id_to_index limit t1 (tn_gid tn)) as [[t2 gi]| | |] eqn:E2; try discriminate. cbn [bind] in S1.
+        injection S1 as <- <-. cbn [i_base ib_uid ib_gid].
+        destruct (id_to_index_spec _ _ _ _ _ E1) as (_ & _ & U3 & _).
+        destruct (id_to_index_spec _ _ _ _ _ E2) as ((m2 & M2') & _ & G3 & _).
+        rewrite S3. unfold nlen in *. rewrite app_length. rewrite M2' in G3 |- *. rewrite app_length in *.
+        apply andb_true_iff. split; apply N.ltb_lt; lia.
+    - (* v_root *)
+      unfold v_root. rewrite M10, RT.
+      assert (Hj : (length t - 1 < length t)%nat) by (unfold nlen in T1; lia).
+      destruct (NR _ Hj) as (n & tn & i & b & r & N0).
+      pose proof (RES _ _ _ _ _ _ N0) as Rr. pose proof N0 as N0'. destruct N0'.
+      replace (nlen t) with (N.of_nat (length t - 1) + 1) by (unfold nlen in *; lia).
+      rewrite (ref_of_index _ _ _ nr_r), Rr, dir_loc_clear_slack, nr_body.
+      apply get_nth in Groot. destruct Groot as [_ Gr].
+      replace (N.to_nat (nlen t - 1)) with (length t - 1)%nat in Gr by (unfold nlen; lia).
+      rewrite Gr in nr_n. injection nr_n as <-.
+      destruct (ReadProofs.read_dir compress uncompress compress_ok limit L65536 bs t img R Ft a im dm _ _ _ _ _ _ rpar rch FIN N0 Proot)
+        as (ents & sb & off & sz & DL & _). rewrite DL. reflexivity.
+    - (* v_dirs *)
+      unfold v_dirs. apply forallb_forall. intros p Hp. destruct (In_nth_error _ _ Hp) as [j Hj].
+      assert (Hjl : (j < length sl)%nat) by (apply nth_error_Some; congruence).
+      unfold sl in Hjl. rewrite scan_result_length in Hjl by lia.
+      assert (Hjt : (j < length t)%nat) by lia.
+      destruct (NR j Hjt) as (n & tn & i & b & r & N0). pose proof N0 as N0'. destruct N0'.
+      assert (Es : snd p = clear_slack i).
+      { assert (M : nth_error (map (fun q => snd q) sl) j = Some (snd p)) by (rewrite nth_error_map, Hj; reflexivity).
+        unfold sl in M. rewrite (scan_result_map (fun i0 => i0)) in M by lia.
+        rewrite nth_error_map in M. fold ins in nr_i. rewrite nr_i in M. cbn in M. congruence. }
+      rewrite Es. unfold dir_ok. rewrite dir_loc_clear_slack, nr_body.
+      destruct (fn_payload n) as [par ch| | | |] eqn:Pn.
+      2-5: rewrite (not_dir_loc compress limit bs t img a j n tn i b r N0) by (intros; congruence); reflexivity.
+      destruct (ReadProofs.read_dir compress uncompress compress_ok limit L65536 bs t img R Ft a im dm _ _ _ _ _ _ par ch FIN N0 Pn)
+        as (ents & sb & off & sz & DL & RL & Rel).
+      rewrite DL. unfold dtbl. rewrite RL.
+      apply andb_true_iff. split.
+      + assert (Hnames : map de_name ents = map fst ch).
+        { clear - Rel. induction Rel as [|e d ch0 ents0 Hed _ IH]; [reflexivity|]. cbn [map]. destruct Hed as [-> _].
+          rewrite IH. reflexivity. }
+        rewrite Hnames. destruct nr_facts as [_ _ _ _ _ _ P]. rewrite Pn in P. cbn [payload_okb] in P.
+        rewrite !andb_true_iff in P. tauto.
+      + apply forallb_forall. intros d Hd.
+        assert (Q : exists e, In e ch /\ ent_rel t (si_refs img) e d).
+        { clear - Rel Hd. induction Rel as [|e d0 ch0 ents0 Hed _ IH]; [contradiction|].
+          destruct Hd as [<-|Hd]; [exists e; split; [left; reflexivity|exact Hed]|].
+          destruct (IH Hd) as (e' & He' & Hr). exists e'. split; [right; exact He'|exact Hr]. }
+        destruct Q as (e & _ & E1 & E2 & E3 & tgt & G & Ty).
+        apply get_nth in G. destruct G as [G1 G2]. set (jc := N.to_nat (snd e - 1)) in *.
+        assert (Hjc : (jc < length t)%nat) by (apply nth_error_Some; congruence).
+        destruct (NR jc Hjc) as (n' & tn' & i' & b' & r' & N1).
+        pose proof (RES _ _ _ _ _ _ N1) as Rc. destruct N1 as [c_n c_tn c_i c_b c_r c_enc c_pos c_ser c_node c_kind c_facts c_ok c_wf c_body].
+        rewrite G2 in c_n. injection c_n as <-.
+        assert (Hc : snd e = N.of_nat jc + 1) by (unfold jc; lia).
+        unfold entry_ok. rewrite E3, Hc, (ref_of_index _ _ _ c_r), Rc, clear_slack_base.
+        destruct c_ser as (tbl & tbl' & more & S1 & _). destruct (serialize_base _ _ _ _ _ S1) as [B1 B2].
+        rewrite B1, B2, c_node. cbn [tn_mode tn_ino]. rewrite Ty, E2, Hc, !N.eqb_refl. reflexivity.
+  Qed.
+
+  (* writer_valid: every clause of the executable validator holds of a written image *)
+  Theorem writer_valid_l : xattr_section_ok -> valid_image uncompress devblk (image_bytes w) = true.
+  Proof.
+    intro HX. destruct (writer_valid_partial_l HX) as (_ & _ & E). rewrite E. exact valid_tree_l.
   Qed.
 End IP.
